@@ -266,15 +266,28 @@ func omObserve(m *orderedmap.Map[string, int], ref *omModel, strict bool) string
 	if err != nil {
 		return "MarshalJSON error: " + err.Error()
 	}
+	// what an earlier encode returned stays what it was: a later encode (of this map or of
+	// another one) must not write into it
+	if omRetained.b != nil && string(omRetained.b) != omRetained.snap {
+		return fmt.Sprintf("the bytes an earlier MarshalJSON returned (%s) were overwritten by a later call (now %s)", truncate(omRetained.snap, 80), truncate(string(omRetained.b), 80))
+	}
+	omRetained.b, omRetained.snap = b, string(b)
 	if got, want := compactJSON(b), ref.json(); got != want {
 		return fmt.Sprintf("MarshalJSON=%s, model %s", got, want)
 	}
 	return ""
 }
 
+// omRetained is the result of the previous MarshalJSON observation of the running history.
+var omRetained struct {
+	b    []byte
+	snap string
+}
+
 // runOmCase executes the history; it returns (violation key, description, step index).
 func runOmCase(c omCase) (key, what string, step int, ex *Exec) {
 	step = -1
+	omRetained.b, omRetained.snap = nil, ""
 	ex = Simulate(c.Sched, nil, 50_000_000, func() error {
 		// live maps: a derived map (Map, Filter) stays alive next to its source, and
 		// every later operation is followed by an observation of *all* of them, so
